@@ -350,7 +350,8 @@ CHECKS = {
         "race": True,
         "tests": [{"name": "TestC14", "quick": 6000, "thorough": 300000},
                   {"name": "TestC14Overflow", "kind": "plain", "quick": 1, "thorough": 1, "shards": {"quick": 1, "thorough": 1}},
-                  {"name": "TestC14Client", "quick": 120, "thorough": 3000}],
+                  {"name": "TestC14Client", "quick": 120, "thorough": 3000},
+                  {"name": "TestC14Partial", "quick": 4000, "thorough": 200000}],
     },
     "C01": {
         "rule": "wire level: a generated schema, libovsdb's server on a unix socket, a plain writer client and 1-2 monitoring clients with 1-2 "
